@@ -114,6 +114,8 @@ def run_case(case, sched):
         raise InvalidCase("no diagrams")
     for d in dg_json:
         ic.check_bd(d)
+        if any(q[1] == float("inf") for q in d):
+            raise InvalidCase("C11's domain is finite diagrams (the imager does not define images of essential classes)")
     mode = cfg_run.get("parallel_mode", "proc")
     if mode not in ("proc", "thread-coop", "thread-preempt"):
         raise InvalidCase("mode")
@@ -300,8 +302,8 @@ def _run(case, sched, world, cfg, dg_json):
             if not ids or any(not isinstance(i, int) or not 0 <= i < len(D) for i in ids):
                 raise InvalidCase("ids")
             coll = [D[i] for i in ids if len(D[i])]
-            if not coll:
-                continue
+            if not coll or any(np.isinf(c_).any() for c_ in coll):
+                continue                    # fitting ranges to an infinite persistence is outside any domain
             allbp = np.vstack([BP[i] for i in ids if len(D[i])])
             if not (np.ptp(allbp[:, 0]) > 0 and np.ptp(allbp[:, 1]) > 0):
                 continue
